@@ -166,17 +166,23 @@ class ExprMixin:
             if nc <= 0:
                 return SV(kind, z3.Empty(SEQ))
             return SV(kind, z3.Concat(*[s.t] * nc) if nc > 1 else s.t)
-        # symbolic count: only single-element patterns are supported: result is n copies of one element
+        # symbolic count: finite-domain concretisation when the count is provably in a small range (exact) ...
+        cnt = self.as_int(n)
+        try:
+            c = self.concretise(cnt, node, limit=16)
+            return self.seq_repeat(s, VI(c), node)
+        except Unsupported:
+            pass
+        # ... otherwise single-element patterns only: n copies of one element, as the uninterpreted term repeat(e, n)
+        elem = None
         if s.k == 'const' and len(s.t) == 1:
-            elem = s.t[0] if isinstance(s.t[0], int) else ord(s.t[0])
-            r = self.sym('rep', SEQ)
-            cnt = self.as_int(n)
+            elem = z3.IntVal(s.t[0] if isinstance(s.t[0], int) else ord(s.t[0]))
+        elif s.k in ('bytes', 'str') and z3.is_app(z3.simplify(s.t)) and z3.simplify(s.t).decl().kind() == z3.Z3_OP_SEQ_UNIT:
+            elem = z3.simplify(s.t).arg(0)
+        if elem is not None:
             ln = z3.If(cnt > 0, cnt, z3.IntVal(0))
+            r = self.ufunc('repeat', INT, INT, SEQ)(elem, ln)
             self.assume(z3.Length(r) == ln)
-            self.st.ghost.setdefault(('repfacts',), []).append((r, elem, ln))
-            # element facts instantiated lazily at index terms (see seq facts) - plus closed form via uninterpreted fn
-            rep = self.ufunc('repeat', INT, INT, SEQ)
-            self.assume(r == rep(z3.IntVal(elem), ln))
             return SV(kind, r)
         raise Unsupported('sequence repeated a symbolic number of times')
 
